@@ -145,15 +145,46 @@ def run_threads(cfg, preempt=None, opcode=False):
                 if not self.__dict__.get("constructing"):
                     ev("set_thread", v is None)
 
-        def build():
+        def build(thread_factory=None, exit_if_empty=None):
             s = LEL.__new__(LEL)
             s.__dict__["constructing"] = True
-            LEL.__init__(s, thread_factory=ctl.thread_factory, exit_if_empty=bool(cfg.get("xie")))
+            LEL.__init__(s, thread_factory=thread_factory or ctl.thread_factory,
+                         exit_if_empty=bool(cfg.get("xie")) if exit_if_empty is None else exit_if_empty)
             s.__dict__["constructing"] = False
             s._ready_list.tag = "rl"
             return s
 
-        sched = build()
+        kind = cfg.get("kind", "el")
+        insts = {}  # label -> the private EventLoopScheduler NewThreadScheduler/ThreadPoolScheduler created for it
+        if kind == "el":
+            sched = build()
+        else:
+            import reactivex.scheduler.newthreadscheduler as ntm
+            import reactivex.scheduler.threadpoolscheduler as tpm
+
+            def make_inst(thread_factory=None, exit_if_empty=False):
+                s = build(thread_factory, exit_if_empty)
+                insts[ctl.me().local.get("lbl")] = s
+                return s
+
+            class StubFuture:
+                def cancel(self):
+                    return False
+
+            class StubExecutor:
+                """concurrent.futures.ThreadPoolExecutor stand-in: every submitted target runs on a controlled thread"""
+
+                def __init__(self, max_workers=None):
+                    pass
+
+                def submit(self, fn):
+                    ctl.thread_factory(fn).start()
+                    return StubFuture()
+
+            saved = (ntm.EventLoopScheduler, tpm.ThreadPoolExecutor)
+            ntm.EventLoopScheduler = make_inst
+            tpm.ThreadPoolExecutor = StubExecutor
+            sched = ntm.NewThreadScheduler(thread_factory=ctl.thread_factory) if kind == "newthread" else tpm.ThreadPoolScheduler()
         handles = {}
 
         def action(lbl, body):
@@ -168,6 +199,7 @@ def run_threads(cfg, preempt=None, opcode=False):
                 k = op[0]
                 if k in ("sched", "rel", "abs"):
                     lbl = op[1]
+                    ctl.me().local["lbl"] = lbl
                     ev("call", k, lbl, None if k == "sched" else op[2])
                     try:
                         if k == "sched":
@@ -199,13 +231,118 @@ def run_threads(cfg, preempt=None, opcode=False):
 
         for p in cfg["progs"]:
             ctl.spawn((lambda p: (lambda: run_ops(p)))(p), "client")
-        status = ctl.run(timeout=cfg.get("timeout", 120.0))
-        final = {"disposed": sched.__dict__["disposed_"], "thread_none": sched.__dict__["thread_"] is None,
-                 "ready_list": [getattr(x, "lbl", None) for x in list(collections.deque.__iter__(sched._ready_list))],
-                 "queue": [getattr(x[0], "lbl", None) for x in sorted(sched._queue.items, key=lambda p: (p[0].duetime, p[1]))],
-                 "clock": ctl.clock, "nthreads": len(ctl.threads)}
+        try:
+            status = ctl.run(timeout=cfg.get("timeout", 120.0))
+        finally:
+            if kind != "el":
+                ntm.EventLoopScheduler, tpm.ThreadPoolExecutor = saved
+
+        def final_of(sc):
+            return {"disposed": sc.__dict__["disposed_"], "thread_none": sc.__dict__["thread_"] is None,
+                    "ready_list": [getattr(x, "lbl", None) for x in list(collections.deque.__iter__(sc._ready_list))],
+                    "queue": [getattr(x[0], "lbl", None) for x in sorted(sc._queue.items, key=lambda p: (p[0].duetime, p[1]))],
+                    "clock": ctl.clock, "nthreads": len(ctl.threads)}
+
+        final = final_of(sched) if kind == "el" else None
+        finals = {lbl: final_of(sc) for lbl, sc in insts.items()}
     return {"status": status, "events": ctl.events, "choices": ctl.choices, "steps": ctl.steps, "n": len(cfg["progs"]), "final": final,
-            "thread_exc": [[t.idx, type(t.exc).__name__] for t in ctl.threads if t.exc is not None]}
+            "finals": finals, "thread_exc": [[t.idx, type(t.exc).__name__] for t in ctl.threads if t.exc is not None]}
+
+
+def split_instances(cfg, res):
+    """NewThreadScheduler / ThreadPoolScheduler: one private exit_if_empty EventLoopScheduler per scheduled item.  Returns, per item
+    label, (instance cfg, instance result) with the item's scheduling thread renumbered 0 and its loop thread 1, so that each
+    instance can be checked against the single-scheduler model and oracle."""
+    ops = {}
+
+    def walk(prog):
+        for o in prog:
+            if o[0] in ("sched", "rel", "abs"):
+                ops[o[1]] = o
+                walk(o[-1])
+
+    for p in cfg["progs"]:
+        walk(p)
+    owner = {}  # thread -> label whose call it is currently inside
+    loop_of = {}  # loop thread -> label
+    per = {lbl: [] for lbl in ops}
+    client_of = {}
+    for e in res["events"]:
+        t, k = e[0], e[1]
+        if t is None or k == "clock":
+            for lbl in per:
+                per[lbl].append((None,) + tuple(e[1:]))
+            continue
+        if k == "call" and e[2] != "dispose":
+            owner[t] = e[3]
+            client_of[e[3]] = t
+        cur = owner.get(t)
+        if k == "thread_start" and cur is not None:
+            loop_of[e[2]] = cur
+        if k == "cancel":
+            lbl = e[2]
+        elif cur is not None:
+            lbl = cur
+        elif t in loop_of:
+            lbl = loop_of[t]
+        else:
+            lbl = None
+        if lbl in per and k != "tick" or (lbl in per and t in loop_of and owner.get(t) is None):
+            per[lbl].append(e)
+        if k == "ret":
+            owner.pop(t, None)
+    out = {}
+    for lbl, evs in per.items():
+        if lbl not in client_of:
+            continue
+        loops = [t for t, l in loop_of.items() if l == lbl]
+        remap = {client_of[lbl]: 0}
+        for j, t in enumerate(sorted(loops)):
+            remap[t] = 1 + j
+        cancelled = any(e[0] is not None and e[1] == "cancel" and e[2] == lbl for e in evs)
+        sub = []
+        for e in evs:
+            if e[0] is None:
+                sub.append(e)
+            elif e[0] in remap:
+                if e[1] == "thread_start":
+                    sub.append((remap[e[0]], "thread_start", remap.get(e[2], e[2])) + tuple(e[3:]))
+                else:
+                    sub.append((remap[e[0]],) + tuple(e[1:]))
+            elif e[1] == "cancel":
+                sub.append((0,) + tuple(e[1:]))  # a cancel issued by another thread: still the instance's client side
+        o = ops[lbl]
+        body = [b for b in o[-1] if b[0] == "tick"]
+        prog = [o[:-1] + [body]] + ([["cancel", lbl]] if cancelled else [])
+        icfg = {"xie": True, "progs": [prog]}
+        ires = {"status": res["status"], "events": sub, "n": 1, "final": res["finals"].get(lbl), "thread_exc": []}
+        out[lbl] = (icfg, ires)
+    return out
+
+
+def oracle_private_loops(cfg, res):
+    """NewThreadScheduler / ThreadPoolScheduler: every item obeys the single-scheduler property on its private loop, runs on a
+    thread of its own (never a client thread, never shared with another item)"""
+    if res["status"] in ("deadlock", "steplimit"):
+        return f"run ended with status {res['status']}"
+    if res["thread_exc"]:
+        return f"a thread raised: {res['thread_exc']}"
+    ran_on = {}
+    for e in res["events"]:
+        if e[0] is not None and e[1] == "invoke":
+            ran_on[e[2]] = e[0]
+    if len(set(ran_on.values())) != len(ran_on):
+        return f"two items ran on the same thread: {ran_on}"
+    for lbl, t in ran_on.items():
+        if t < res["n"]:
+            return f"item {lbl} ran on client thread {t}"
+    for lbl, (icfg, ires) in split_instances(cfg, res).items():
+        if ires["final"] is None:
+            continue
+        v = oracle(icfg, ires)
+        if v:
+            return f"item {lbl} (private loop): {v}"
+    return None
 
 
 GUARDED = {"rl_append", "rl_popleft", "pq_enq", "pq_deq", "pq_peek", "pq_len", "rl_len", "set_disposed", "set_thread", "get_thread"}
